@@ -331,6 +331,55 @@ fn datum_witness(c: &Case, t: &Value) -> Option<Case> {
     c.wits_mut().remove(4)?;
     Some(c)
 }
+/// the spent script output asks for ANOTHER datum (its datum hash is changed in the UTxO) while the witness
+/// datum stays and stays referenced (an output now carries its hash), so only the input's datum is missing
+fn datum_hash_changed(c: &Case, t: &Value) -> Option<Case> {
+    if !t["plutus"].as_bool().unwrap_or(false) {
+        return None;
+    }
+    let want = strs(&t["inDatumHashes"]).first()?.clone();
+    let orig = pv_core::unhex(&want);
+    let mut c = c.clone();
+    // find the spent entry carrying that datum hash
+    let mut done = false;
+    for k in 0..c.input_refs(0).len() {
+        let u = c.utxo_index_of(0, k)?;
+        let e = &mut c.utxo[u];
+        let slot = match e.kind {
+            "alonzo" => e.out.items_mut().and_then(|i| i.get_mut(2)),
+            _ => e.out.get_mut(2).and_then(|d| d.items_mut()).and_then(|i| i.get_mut(1)),
+        };
+        if let Some(Cb::Bytes(b, _)) = slot {
+            if b[..] == orig[..] {
+                b[0] ^= 0xff;
+                done = true;
+                break;
+            }
+        }
+    }
+    if !done || c.n_outputs() == 0 {
+        return None;
+    }
+    let o = c.body_mut().get_mut(1)?.items_mut()?.get_mut(0)?;
+    match o {
+        Cb::Map(es, _) => {
+            if es.iter().any(|(k, _)| k.as_u64() == Some(2)) {
+                return None;
+            }
+            es.push((Cb::uint(2), Cb::array(vec![Cb::uint(0), Cb::bytes(&orig)])));
+        }
+        _ => {
+            let it = o.items_mut()?;
+            if it.len() > 2 {
+                return None;
+            }
+            it.push(Cb::bytes(&orig));
+        }
+    }
+    c.pad_fee_and_collateral(2000)?;
+    c.resign();
+    Some(c)
+}
 fn redeemer_coverage(c: &Case, t: &Value) -> Option<Case> {
     if !t["plutus"].as_bool().unwrap_or(false) {
         return None;
@@ -453,6 +502,7 @@ const TABLE: &[(&str, &str, Mutator)] = &[
     ("MintPolicy", "mint-unknown-policy", mint_policy),
     ("ScriptWitness", "scripts-removed", script_witness),
     ("DatumWitness", "datums-removed", datum_witness),
+    ("DatumWitness", "input-datum-hash-changed", datum_hash_changed),
     ("RedeemerCoverage", "extra-redeemer", redeemer_coverage),
     ("", "withdrawals/key-hash-low/reward-pointer-0", wd_low_ok),
     ("", "withdrawals/key-hash-high/reward-pointer-0", wd_high_ok),
